@@ -1,7 +1,7 @@
 #!/bin/bash
 # development helper: confirm every not-yet-confirmed seed under /tmp/seed/*/SEED/{A,B}
 while [ ! -f /tmp/seed/STOP ]; do
-  for d in /tmp/seed/C*/SEED/[ABCDEF]; do
+  for d in /tmp/seed/C*/SEED/[ABCDEFGH]; do
     [ -f $d/meta.json ] || continue
     id=$(echo $d | sed 's#/tmp/seed/\(C[0-9]*\)/SEED/.*#\1#'); v=$(basename $d)
     [ -f /tmp/seed/confirm_${id}_$v.log ] && continue
